@@ -51,7 +51,8 @@ Calibration of the new clauses (quick + thorough, seeds 0..5, same scaled units,
   gradient conversion: lattice 1.2e-16, floats 1.5e-16, conventions 1.4e-16 (scale max|d| max(1, 1/r, 1/(r |sin phi|)));
   cart->sph scaled 1.7e-16, signed zeros 4.4e-16, AtomGrid route 1.7e-16;
   float32 arrays (tolerance 1e-3 = TolExp of the specification; budget: 2^-24 per single-precision operation times
-  m |theta| <= 60): measured ylm 2.0e-7, scipy 2.0e-7, derivative 1.6e-7, solid 2.8e-7; wrong sign / row / factor >= 1e-1.
+  m |theta| <= 60): measured (l_max 5 quick / 8 thorough) ylm 2.7e-7, scipy 2.5e-7, derivative 3.0e-7, solid 3.9e-7; a wrong
+  sign / row / factor is >= 1e-1.
   The 14 source-level mutants and 3 corruptions of the observation file in AUDIT_MUTANTS / JUDGE_CORRUPTIONS are all reported
   by the clause they were written for.
 Known finding (known_findings.d/C08.json, proposal gen/proposals/C08-extended-precision-angles.diff): the two SciPy-based
@@ -88,7 +89,7 @@ def _tlc(wd, tier, rep):
     ltree = 12 if tier == "thorough" else 8
     cfg = wd / "MC_HarmonicsAudit_run.cfg"
     base = (tlc.SPEC / "MC_HarmonicsAudit.cfg").read_text()
-    base = base.replace("LTree = 12", f"LTree = {ltree}")
+    base = base.replace("LTree = 12", f"LTree = {ltree}").replace("LForm = 5", f"LForm = {8 if tier == 'thorough' else 5}")
     cfg.write_text(base)
     res = tlc.run_tlc("HarmonicsAudit", cfg, wd, workers=WORKERS, timeout=900).require_ok("MC_HarmonicsAudit")
     rep.tlc(res, "MC_HarmonicsAudit")
@@ -230,7 +231,8 @@ def _angles(em, tier, rng):
         # quick: the threshold angles nearest to the poles (1e-9, 1e-7; 1e-3 is the existing "nearpole" class), a third
         # of the far ones
         extra = [a for i, a in enumerate(extra)
-                 if (a["class"] == "threshold" and a["phi"]["off"][1] >= 10 ** 7) or (a["class"] == "far" and i % 3 == 0)]
+                 if (a["class"] == "threshold" and a["phi"]["off"][1] >= 10 ** 7) or (a["class"] == "far" and i % 3 == 0)
+                 or a["class"] == "pole"]
     for a in extra:
         out.append((a["class"], _angle_float(a["theta"]), _angle_float(a["phi"]), a["r"][0] / a["r"][1]))
     return out
